@@ -135,7 +135,7 @@ def run_function(prog: Program, resolver: Resolver, qual: str, layers: Tuple[str
     done = 0
     while plans:
         plan = plans.pop()
-        it.choice_plan, it.choice_log, it.choice_notes, it.active_ren = plan, [], [], {}
+        it.choice_plan, it.choice_log, it.choice_notes, it.active_ren, it.active_trivial = plan, [], [], {}, []
         res = it.run(qual, args)
         done += 1
         if done > 48:
@@ -144,6 +144,7 @@ def run_function(prog: Program, resolver: Resolver, qual: str, layers: Tuple[str
         for o in res:
             o.path = list(o.path) + extra
             o.ren = {**it.active_ren, **o.ren}
+            o.trivial = list(it.active_trivial) + list(o.trivial)
         outs += res
         for i in range(len(plan), len(it.choice_log)):
             for j in range(1, it.choice_log[i]):
